@@ -16,7 +16,7 @@ import (
 
 func main() {
 	debug.SetGCPercent(3000)
-	// the generous GC percentage trades memory for speed; a soft memory limit (35% of RAM, at least 2 GiB) makes the
+	// the generous GC percentage trades memory for speed; a soft memory limit (quick tier 12%, thorough tier 35% of RAM, at least 2 GiB) makes the
 	// collector work harder long before the machine runs out of memory (the sandbox has no memory cgroup)
 	debug.SetMemoryLimit(memoryLimit())
 	if len(os.Args) < 2 {
@@ -94,6 +94,14 @@ func main() {
 }
 
 func memoryLimit() int64 {
+	// quick tier (anything but an explicit "thorough" argument): 12% of RAM, so that several quick checks can run side by
+	// side without the kernel's OOM killer stepping in (observed with five parallel runs at 35%); thorough: 35%
+	pct := int64(12)
+	for _, a := range os.Args[1:] {
+		if a == "thorough" {
+			pct = 35
+		}
+	}
 	limit := int64(8) << 30
 	if b, err := os.ReadFile("/proc/meminfo"); err == nil {
 		for _, l := range strings.Split(string(b), "\n") {
@@ -101,7 +109,7 @@ func memoryLimit() int64 {
 				f := strings.Fields(l)
 				if len(f) >= 2 {
 					if kb, err := strconv.ParseInt(f[1], 10, 64); err == nil {
-						limit = kb * 1024 * 35 / 100
+						limit = kb * 1024 * pct / 100
 					}
 				}
 			}
